@@ -1,5 +1,7 @@
 import FitModel.DecProg
+import FitProps.LinkLemmasDefs
 import Driver.ReadBuffer
+import Driver.DecApiShow
 -- @family dfrag Drv.DFrag.hDfrag
 -- @family cifrag Drv.DFrag.hCifrag
 -- @family dfragx Drv.DFrag.hDfragX
@@ -8,7 +10,10 @@ import Driver.ReadBuffer
 (`WithReadBufferSize(size)`, component expansion off, definition and message listeners) over a reader that
 delivers the bytes according to the schedule `<lens>` (see `Driver/ReadBuffer.lean`; without `s:` the reader is
 `bytes.NewReader`). Answer: how the loop ended, the listener events, per sequence header and CRCs, and `v=` —
-whether everything observed equals the run over the contiguous reader with the default buffer size.
+whether everything observed equals the run over the contiguous reader with the default buffer size — and `m=`: the digest
+of the VALUES of every message handed to the message listener (number, header byte, every field with number / base type /
+flags / value, developer fields: the canonical text of family `decapi`), which the model rebuilds from the bytes the
+message events carry (`Fit.Link.apiOf` with the regenerated standard factory, component expansion off).
 
 `cifrag [size=] b: [s:]` — `CheckIntegrity` in the same setting.
 
@@ -84,9 +89,23 @@ def sameOutcome : Outcome Out → Outcome Out → Bool
 /-- `v=` is evaluated only where C08 speaks: the schedule has no failure -/
 def vApplies (a : Args) : Bool := cleanB a.schedule
 
-def modelAnswer (a : Args) : String :=
+/-- digest of the value-level messages (C)'s functions make of the bytes the message events carry -/
+def valueDigest (a : Args) : Outcome Out → String
+  | .panic => "-"
+  | .done o =>
+    let opts : Fit.DecApi.Opts := { chk := a.chk, exp := false, ml := true, dl := false, fac := Drv.DecApi.stdFactory }
+    let msgs := (Fit.Link.apiOf opts o).flatMap fun c => c.2.filterMap fun
+      | .mesg m => some (Drv.DecApi.showMsg m)
+      | _ => none
+    Drv.DecApi.digest msgs false
+
+/-- `withM`: the answer carries the value digest (not inside the exhaustive sweeps of `dfragx`) -/
+def modelAnswerG (withM : Bool) (a : Args) : String :=
   let o := runOn a a.schedule a.bufSize
-  showOutcome o ++ (if vApplies a then (if sameOutcome o (reference a) then " v=same" else " v=diff") else " v=na")
+  showOutcome o ++ (if withM then " m=" ++ valueDigest a o else "") ++
+    (if vApplies a then (if sameOutcome o (reference a) then " v=same" else " v=diff") else " v=na")
+
+def modelAnswer (a : Args) : String := modelAnswerG true a
 
 def fnvStr (d : UInt64) (s : String) : UInt64 :=
   let d := s.foldl (fun d c => (d ^^^ c.toNat.toUInt64) * 0x100000001b3) d
@@ -106,13 +125,13 @@ def sweepAnswer (a : Args) : String := Id.run do
       let c1 : Chunk := ⟨bs.take cut, none⟩
       let c2 : Chunk := ⟨bs.drop cut, if how == 1 then some .eof else none⟩
       let s : Sched := if how == 2 then [c1, c2, ⟨[], some .eof⟩] else [c1, c2]
-      let ans := modelAnswer { a with sched := some s }
+      let ans := modelAnswerG false { a with sched := some s }
       d := fnvStr d ans
       n := n + 1
       if ans.endsWith "v=diff" then diffs := diffs + 1
   for k in [0:L+1] do
     let s : Sched := [⟨bs.take k, none⟩, ⟨[], some (.custom 7)⟩]
-    let ans := modelAnswer { a with sched := some s }
+    let ans := modelAnswerG false { a with sched := some s }
     d := fnvStr d ans
     n := n + 1
   return s!"n={n} d={hexN 16 d.toNat} diff={diffs}"
@@ -132,7 +151,7 @@ def hDfrag : Handler := fun r =>
   | some a =>
     match r.mode with
     | .model => modelAnswer a
-    | .spec => if vApplies a then showOutcome (reference a) ++ " v=same" else "n/a"
+    | .spec => if vApplies a then showOutcome (reference a) ++ " m=" ++ valueDigest a (reference a) ++ " v=same" else "n/a"
     | .kf =>
       if vApplies a then
         (if truncated (decodeLoop a.chk (a.bytes.length + 1) true []) (bytesOf a.schedule) then "KF-C08-1" else "-")
